@@ -18,7 +18,7 @@ use discv5::{ConfigBuilder, ConnectionDirection, IpMode, ListenConfig, NodeAddre
 use serde_json::{json, Map, Value};
 use std::collections::HashMap;
 use std::net::{Ipv4Addr, SocketAddr};
-use std::sync::Arc;
+
 use std::time::Duration;
 
 type Enr = GEnr<CombinedKey>;
